@@ -777,6 +777,17 @@ func (bc *BlockChain) PostChainEvents(events []interface{}, logs []*types.Log) {
 	}
 }
 
+// writeBlockAtomic stores body, hash->number mapping and header of a block in ONE atomic
+// write: HasBlock looks at the body only, so a process death between the three separate puts
+// of rawdb.WriteBlock would leave a body whose header is never written again.
+func (bc *BlockChain) writeBlockAtomic(block *types.Block) {
+	batch := bc.db.NewBatch()
+	rawdb.WriteBlock(batch, block)
+	if err := batch.Write(); err != nil {
+		logging.Crit("Failed to store block", "err", err)
+	}
+}
+
 // WriteBlockWithoutState writes only the block and its metadata to the database,
 // but does not write any state. This is used to construct competing side forks
 // up to the point where they exceed the canonical total difficulty.
@@ -788,7 +799,7 @@ func (bc *BlockChain) WriteBlockWithoutState(block *types.Block) error {
 	defer bc.mu.Unlock()
 
 	//write
-	rawdb.WriteBlock(bc.db, block)
+	bc.writeBlockAtomic(block)
 
 	logging.Info("WriteBlockWithoutState.", "Height", block.NumberU64(), "Hash", block.Hash().String())
 
@@ -804,7 +815,7 @@ func (bc *BlockChain) WriteBlockWithState(block *types.Block, state *state.State
 	defer bc.mu.Unlock()
 
 	//write
-	rawdb.WriteBlock(bc.db, block)
+	bc.writeBlockAtomic(block)
 
 	//db commit
 	root, valRoot, stakingRoot, err := state.Commit(true)
